@@ -681,8 +681,8 @@ func deepEqual(fr *frame, x, y value, depth int) value {
 func describeFn(prog *ssa.Program, fn *ssa.Function) (string, string) {
 	pos := prog.Fset.Position(fn.Pos())
 	f := pos.Filename
-	if i := strings.Index(f, "/repo/"); i >= 0 {
-		f = f[i+6:]
+	if strings.HasPrefix(f, repoRoot+"/") {
+		f = f[len(repoRoot)+1:]
 	}
 	return fn.String(), f
 }
